@@ -39,7 +39,7 @@ class Inconsistent(EngineLimit):
 _cur = None
 import os as _os
 import sys as _sys
-TRACE_FORKS = bool(_os.environ.get('SYMX_TRACE_FORKS'))
+TRACE_FORKS = _os.environ.get('SYMX_TRACE_FORKS') or False
 
 
 def _site():
@@ -246,6 +246,8 @@ class Path:
                 self.pending.append(self.decisions + [0])
                 if TRACE_FORKS:
                     site = _site()
+                    if TRACE_FORKS == 'cond':
+                        site += ' :: ' + str(cond)[:160].replace('\n', ' ')
                     self.fork_sites[site] = self.fork_sites.get(site, 0) + 1
                 self.decisions.append(1)
                 self.assume(cond)
